@@ -1,8 +1,645 @@
-(** C17 — interim property file: the local-equivalence lemmas are being proved. *)
-From DL Require Import Lib.Bytes Lua.Syntax Lua.Sem Lua.RunCheck.
+(** C17 - Removal and injection rules change exactly what they name.
+    Only statements, closed by [exact], with their assumptions printed and pinned.
+
+    LOCAL theorems about the Gallina models (Model/Removal.v) of what remove_assertions,
+    remove_debug_profiling and inject_global_value put in place of a node, against the reference
+    interpreter (Lua/Sem.v): for every dialect, fuel, environment, varargs and store.  They are
+    RELATIONAL: the original node is run with the targeted function bound to a no-op / to
+    [function(...) return ... end] / the global preset, the replacement in the unmodified
+    environment.  Statements have the form "if the original evaluates (without error, with enough
+    fuel) to this result and store, so does the replacement for every sufficiently large fuel"
+    (the property quantifies over error-free original runs); fuel monotonicity: Proof/LoweringFuel.v.
+
+    NOT proved: the lifting of these local equivalences to whole programs (the traversal, i.e.
+    that every occurrence is rewritten under the right scope and nothing else is).  Whole-program
+    equivalence is VALIDATED on every run by the translation-validation streams of vlib/c17.py
+    (generated programs and templates pushed through the real rules, reference run vs run of the
+    output in the Coq interpreter), and the models are tied to the Rust code by the correspondence
+    stream (block_eqb (model_rule IN) OUT on templates hitting every arm).  Three recorded
+    findings are stated as [_refuted] witnesses. *)
+From Coq Require Import ZArith NArith List Bool String.
+From DL Require Import Lib.Bytes Lib.F64 Lua.Syntax Lua.Sem Lua.EvalSpec Lua.DataSpec Lua.RunCheck.
+From DL Require Import Model.Evaluator Model.Removal Model.RemovalKnown.
+From DL Require Import Proof.RefactorSem Proof.RemovalSoundValue Proof.RemovalSoundStmt Proof.RemovalSoundInject Proof.RemovalSoundNested.
+From DL Require Import Proof.SerializerSound Proof.SerializerTheorems.
+Import ListNotations.
 Open Scope N_scope.
 
-Theorem C17_outcome_eqb_refl_nil : outcome_eqb (OutOk [] []) (OutOk [] []) = true.
-Proof. reflexivity. Qed.
-Print Assumptions C17_outcome_eqb_refl_nil.
-Check C17_outcome_eqb_refl_nil : outcome_eqb (OutOk [] []) (OutOk [] []) = true.
+(** VALUE POSITION. What the rules leave for the kept arguments [es] of a removed call, [(e1 or true) and ((e2 or true) and nil)], evaluates every [e] once, in order, and yields [nil] ... *)
+Theorem C17_expressions_as_expression_sound :
+  forall (d : dialect) (rho : env) (va : list value) (es : list expr) (s s' : store),
+  evals_in_order d rho va es s s' ->
+  exists m : nat,
+  forall j : nat, (m <= j)%nat -> eval d j rho va (expressions_as_expression es) s = Ok [VNil] s'.
+Proof. exact expressions_as_expression_sound. Qed.
+Print Assumptions C17_expressions_as_expression_sound.
+Check C17_expressions_as_expression_sound :
+  forall (d : dialect) (rho : env) (va : list value) (es : list expr) (s s' : store),
+  evals_in_order d rho va es s s' ->
+  exists m : nat,
+  forall j : nat, (m <= j)%nat -> eval d j rho va (expressions_as_expression es) s = Ok [VNil] s'.
+
+(** ... and can do nothing else. *)
+Theorem C17_expressions_as_expression_inv :
+  forall (d : dialect) (rho : env) (va : list value) (es : list expr) (j : nat) 
+  (s : store) (r : list value) (s' : store),
+  eval d j rho va (expressions_as_expression es) s = Ok r s' ->
+  r = [VNil] /\ evals_in_order d rho va es s s'.
+Proof. exact expressions_as_expression_inv. Qed.
+Print Assumptions C17_expressions_as_expression_inv.
+Check C17_expressions_as_expression_inv :
+  forall (d : dialect) (rho : env) (va : list value) (es : list expr) (j : nat) 
+  (s : store) (r : list value) (s' : store),
+  eval d j rho va (expressions_as_expression es) s = Ok r s' ->
+  r = [VNil] /\ evals_in_order d rho va es s s'.
+
+(** remove_debug_profiling, single-value position: the call of a no-op ([noop_callee]: the callee evaluates without effect to a function that returns nothing and leaves the store alone when called on these arguments) yields [nil] and leaves the store the replacement leaves. Arguments are either kept ([has_side_effects]) or dropped and quiet (their evaluation changes no store; [simple_quiet_quiet]: literals, locals, [...], parentheses, [not]). *)
+Theorem C17_profile_value_removal_sound :
+  forall (d : dialect) (rho : env) (va : list value) (n : nat) (p : expr) (es : list expr) 
+  (s : store) (v : value) (s' : store),
+  noop_callee d rho va p es s ->
+  Forall (kept_or_quiet d rho va) es ->
+  eval1 d n rho va (ECall p None (ATuple es)) s = Ok v s' ->
+  v = VNil /\
+  (exists m : nat,
+  forall j : nat,
+  (m <= j)%nat ->
+  eval1 d j rho va (expressions_as_expression (preserve_args (ATuple es))) s = Ok VNil s').
+Proof. exact profile_value_removal_sound. Qed.
+Print Assumptions C17_profile_value_removal_sound.
+Check C17_profile_value_removal_sound :
+  forall (d : dialect) (rho : env) (va : list value) (n : nat) (p : expr) (es : list expr) 
+  (s : store) (v : value) (s' : store),
+  noop_callee d rho va p es s ->
+  Forall (kept_or_quiet d rho va) es ->
+  eval1 d n rho va (ECall p None (ATuple es)) s = Ok v s' ->
+  v = VNil /\
+  (exists m : nat,
+  forall j : nat,
+  (m <= j)%nat ->
+  eval1 d j rho va (expressions_as_expression (preserve_args (ATuple es))) s = Ok VNil s').
+
+Theorem C17_simple_quiet_quiet :
+  forall (d : dialect) (rho : env) (va : list value) (e : expr),
+  simple_quiet rho e = true -> quiet d rho va e.
+Proof. exact simple_quiet_quiet. Qed.
+Print Assumptions C17_simple_quiet_quiet.
+Check C17_simple_quiet_quiet :
+  forall (d : dialect) (rho : env) (va : list value) (e : expr),
+  simple_quiet rho e = true -> quiet d rho va e.
+
+(** Recorded finding (key remove_call:removed-call-in-multivalue-tail-yields-one-nil): in multi-value position the no-op yields NO value, the replacement ONE. *)
+Theorem C17_profile_value_tail_refuted :
+  exists
+  (dl : dialect) (rho : env) (va : list value) (p : expr) (s : store) (r1 r2 : list value)
+  (s1 s2 : store),
+  eval dl 12 rho va (ECall p None (ATuple [])) s = Ok r1 s1 /\
+  eval dl 12 rho va (expressions_as_expression (preserve_args (ATuple []))) s = Ok r2 s2 /\
+  r1 = [] /\ r2 = [VNil].
+Proof. exact profile_value_tail_refuted. Qed.
+Print Assumptions C17_profile_value_tail_refuted.
+Check C17_profile_value_tail_refuted :
+  exists
+  (dl : dialect) (rho : env) (va : list value) (p : expr) (s : store) (r1 r2 : list value)
+  (s1 s2 : store),
+  eval dl 12 rho va (ECall p None (ATuple [])) s = Ok r1 s1 /\
+  eval dl 12 rho va (expressions_as_expression (preserve_args (ATuple []))) s = Ok r2 s2 /\
+  r1 = [] /\ r2 = [VNil].
+
+Theorem C17_profile_tail_refuted :
+  run_chunk L51 40 [] (with_noop_profiling (count_values call_profileend)) =
+  OutOk [] [RNum (to_bits (of_Z 0))] /\
+  run_chunk L51 40 [] (rule_remove_debug_profiling true (count_values call_profileend)) =
+  OutOk [] [RNum (to_bits (of_Z 1))].
+Proof. exact profile_tail_refuted. Qed.
+Print Assumptions C17_profile_tail_refuted.
+Check C17_profile_tail_refuted :
+  run_chunk L51 40 [] (with_noop_profiling (count_values call_profileend)) =
+  OutOk [] [RNum (to_bits (of_Z 0))] /\
+  run_chunk L51 40 [] (rule_remove_debug_profiling true (count_values call_profileend)) =
+  OutOk [] [RNum (to_bits (of_Z 1))].
+
+Theorem C17_assert_tail_refuted :
+  run_chunk L51 40 [] (with_identity_assert (count_values (call_assert []))) =
+  OutOk [] [RNum (to_bits (of_Z 0))] /\
+  run_chunk L51 40 [] (rule_remove_assertions true (count_values (call_assert []))) =
+  OutOk [] [RNum (to_bits (of_Z 1))].
+Proof. exact assert_tail_refuted. Qed.
+Print Assumptions C17_assert_tail_refuted.
+Check C17_assert_tail_refuted :
+  run_chunk L51 40 [] (with_identity_assert (count_values (call_assert []))) =
+  OutOk [] [RNum (to_bits (of_Z 0))] /\
+  run_chunk L51 40 [] (rule_remove_assertions true (count_values (call_assert []))) =
+  OutOk [] [RNum (to_bits (of_Z 1))].
+
+(** remove_assertions, value position, [assert] bound to [function(...) return ... end] ([identity_callee]): [assert()] yields no value and has no effect (the rule writes [nil]: equal in single-value position only, see above); [assert(e)] is [e] with all its values; [assert(e1, e2, ...)] is [select(1, e1, e2, ...)] where [sel] ([select] or the alias the rule declares when [select] is shadowed) denotes the builtin. *)
+Theorem C17_assert_value_removal_sound_0 :
+  forall (d : dialect) (rho : env) (va : list value) (n : nat) (p : expr) (s : store) 
+  (r : list value) (s' : store),
+  identity_callee d rho va p [] s ->
+  eval d n rho va (ECall p None (ATuple [])) s = Ok r s' ->
+  r = [] /\ s' = s /\ assert_result false [] = ENil.
+Proof. exact assert_value_removal_sound_0. Qed.
+Print Assumptions C17_assert_value_removal_sound_0.
+Check C17_assert_value_removal_sound_0 :
+  forall (d : dialect) (rho : env) (va : list value) (n : nat) (p : expr) (s : store) 
+  (r : list value) (s' : store),
+  identity_callee d rho va p [] s ->
+  eval d n rho va (ECall p None (ATuple [])) s = Ok r s' ->
+  r = [] /\ s' = s /\ assert_result false [] = ENil.
+
+Theorem C17_assert_value_removal_sound_1 :
+  forall (d : dialect) (rho : env) (va : list value) (n : nat) (p e : expr) 
+  (s : store) (r : list value) (s' : store),
+  identity_callee d rho va p [e] s ->
+  eval d n rho va (ECall p None (ATuple [e])) s = Ok r s' ->
+  assert_result false [e] = e /\ (forall j : nat, (n <= j)%nat -> eval d j rho va e s = Ok r s').
+Proof. exact assert_value_removal_sound_1. Qed.
+Print Assumptions C17_assert_value_removal_sound_1.
+Check C17_assert_value_removal_sound_1 :
+  forall (d : dialect) (rho : env) (va : list value) (n : nat) (p e : expr) 
+  (s : store) (r : list value) (s' : store),
+  identity_callee d rho va p [e] s ->
+  eval d n rho va (ECall p None (ATuple [e])) s = Ok r s' ->
+  assert_result false [e] = e /\ (forall j : nat, (n <= j)%nat -> eval d j rho va e s = Ok r s').
+
+Theorem C17_assert_value_removal_sound_many :
+  forall (d : dialect) (rho : env) (va : list value) (n : nat) (p : expr) (sel : name) 
+  (es : list expr) (s : store) (r : list value) (s' : store),
+  identity_callee d rho va p es s ->
+  (2 <= Datatypes.length es)%nat ->
+  reads rho sel s (VBuiltin B_select) ->
+  eval d n rho va (ECall p None (ATuple es)) s = Ok r s' ->
+  forall j : nat,
+  (n + 4 <= j)%nat -> eval d j rho va (ECall (EIdent sel) None (ATuple (one :: es))) s = Ok r s'.
+Proof. exact assert_value_removal_sound_many. Qed.
+Print Assumptions C17_assert_value_removal_sound_many.
+Check C17_assert_value_removal_sound_many :
+  forall (d : dialect) (rho : env) (va : list value) (n : nat) (p : expr) (sel : name) 
+  (es : list expr) (s : store) (r : list value) (s' : store),
+  identity_callee d rho va p es s ->
+  (2 <= Datatypes.length es)%nat ->
+  reads rho sel s (VBuiltin B_select) ->
+  eval d n rho va (ECall p None (ATuple es)) s = Ok r s' ->
+  forall j : nat,
+  (n + 4 <= j)%nat -> eval d j rho va (ECall (EIdent sel) None (ATuple (one :: es))) s = Ok r s'.
+
+(** STATEMENT POSITION. Kept arguments that are calls (under parentheses / casts) become call statements: the statement [expressions_as_statement] builds runs them in order, same environment, same store. *)
+Theorem C17_calls_as_statement_sound :
+  forall (d : dialect) (rho : env) (va : list value) (es : list expr) (s s' : store),
+  evals_in_order d rho va es s s' ->
+  Forall (fun e : expr => is_call (inner_expr e) = true) es ->
+  exists m : nat,
+  forall j : nat,
+  (m <= j)%nat -> exec_stmt d j rho va (expressions_as_statement es) s = Ok (rho, SigNone) s'.
+Proof. exact calls_as_statement_sound. Qed.
+Print Assumptions C17_calls_as_statement_sound.
+Check C17_calls_as_statement_sound :
+  forall (d : dialect) (rho : env) (va : list value) (es : list expr) (s s' : store),
+  evals_in_order d rho va es s s' ->
+  Forall (fun e : expr => is_call (inner_expr e) = true) es ->
+  exists m : nat,
+  forall j : nat,
+  (m <= j)%nat -> exec_stmt d j rho va (expressions_as_statement es) s = Ok (rho, SigNone) s'.
+
+(** The removed call statement, callee a no-op or the identity, dropped arguments quiet, kept arguments calls: the original (run with that callee) and what the rule leaves end in the same environment and the same store. *)
+Theorem C17_removed_call_stmt_sound :
+  forall (d : dialect) (rho : env) (va : list value) (n : nat) (p : expr) (es : list expr) 
+  (s : store) (rho' : env) (sg : signal) (s' : store),
+  noop_callee d rho va p es s \/ identity_callee d rho va p es s ->
+  Forall (kept_or_quiet d rho va) es ->
+  Forall (fun e : expr => is_call (inner_expr e) = true) (filter hse es) ->
+  exec_stmt d n rho va (SCall (ECall p None (ATuple es))) s = Ok (rho', sg) s' ->
+  exists m : nat,
+  forall j : nat,
+  (m <= j)%nat ->
+  exec_stmt d j rho va (expressions_as_statement (preserve_args (ATuple es))) s = Ok (rho', sg) s'.
+Proof. exact removed_call_stmt_sound. Qed.
+Print Assumptions C17_removed_call_stmt_sound.
+Check C17_removed_call_stmt_sound :
+  forall (d : dialect) (rho : env) (va : list value) (n : nat) (p : expr) (es : list expr) 
+  (s : store) (rho' : env) (sg : signal) (s' : store),
+  noop_callee d rho va p es s \/ identity_callee d rho va p es s ->
+  Forall (kept_or_quiet d rho va) es ->
+  Forall (fun e : expr => is_call (inner_expr e) = true) (filter hse es) ->
+  exec_stmt d n rho va (SCall (ECall p None (ATuple es))) s = Ok (rho', sg) s' ->
+  exists m : nat,
+  forall j : nat,
+  (m <= j)%nat ->
+  exec_stmt d j rho va (expressions_as_statement (preserve_args (ATuple es))) s = Ok (rho', sg) s'.
+
+Theorem C17_removed_call_stmt_sound_at :
+  forall (d : dialect) (rho : env) (va : list value) (n : nat) (p : expr) (es : list expr) 
+  (s : store) (rho' : env) (sg : signal) (s' : store),
+  inert_callee_at d rho va p es s ->
+  Forall (kept_or_quiet d rho va) es ->
+  Forall (fun e : expr => is_call (inner_expr e) = true) (filter hse es) ->
+  exec_stmt d n rho va (SCall (ECall p None (ATuple es))) s = Ok (rho', sg) s' ->
+  exists m : nat,
+  forall j : nat,
+  (m <= j)%nat ->
+  exec_stmt d j rho va (expressions_as_statement (preserve_args (ATuple es))) s = Ok (rho', sg) s'.
+Proof. exact removed_call_stmt_sound_at. Qed.
+Print Assumptions C17_removed_call_stmt_sound_at.
+Check C17_removed_call_stmt_sound_at :
+  forall (d : dialect) (rho : env) (va : list value) (n : nat) (p : expr) (es : list expr) 
+  (s : store) (rho' : env) (sg : signal) (s' : store),
+  inert_callee_at d rho va p es s ->
+  Forall (kept_or_quiet d rho va) es ->
+  Forall (fun e : expr => is_call (inner_expr e) = true) (filter hse es) ->
+  exec_stmt d n rho va (SCall (ECall p None (ATuple es))) s = Ok (rho', sg) s' ->
+  exists m : nat,
+  forall j : nat,
+  (m <= j)%nat ->
+  exec_stmt d j rho va (expressions_as_statement (preserve_args (ATuple es))) s = Ok (rho', sg) s'.
+
+(** ... instantiated on the models of the two rules' [process_statement] ([rc_stmt]); the name must not be shadowed ([in_scope ... = false], the tracker of Model/Removal.v). *)
+Theorem C17_assert_removal_sound :
+  forall (d : dialect) (rho : env) (va : list value) (n : nat) (sc : list name) 
+  (es : list expr) (s : store) (rho' : env) (sg : signal) (s' : store),
+  in_scope nm_assert sc = false ->
+  noop_callee d rho va (EIdent nm_assert) es s \/ identity_callee d rho va (EIdent nm_assert) es s ->
+  Forall (kept_or_quiet d rho va) es ->
+  Forall (fun e : expr => is_call (inner_expr e) = true) (filter hse es) ->
+  exec_stmt d n rho va (SCall (ECall (EIdent nm_assert) None (ATuple es))) s = Ok (rho', sg) s' ->
+  exists m : nat,
+  forall j : nat,
+  (m <= j)%nat ->
+  exec_stmt d j rho va
+  (rc_stmt assert_matcher true sc (SCall (ECall (EIdent nm_assert) None (ATuple es)))) s =
+  Ok (rho', sg) s'.
+Proof. exact assert_removal_sound. Qed.
+Print Assumptions C17_assert_removal_sound.
+Check C17_assert_removal_sound :
+  forall (d : dialect) (rho : env) (va : list value) (n : nat) (sc : list name) 
+  (es : list expr) (s : store) (rho' : env) (sg : signal) (s' : store),
+  in_scope nm_assert sc = false ->
+  noop_callee d rho va (EIdent nm_assert) es s \/ identity_callee d rho va (EIdent nm_assert) es s ->
+  Forall (kept_or_quiet d rho va) es ->
+  Forall (fun e : expr => is_call (inner_expr e) = true) (filter hse es) ->
+  exec_stmt d n rho va (SCall (ECall (EIdent nm_assert) None (ATuple es))) s = Ok (rho', sg) s' ->
+  exists m : nat,
+  forall j : nat,
+  (m <= j)%nat ->
+  exec_stmt d j rho va
+  (rc_stmt assert_matcher true sc (SCall (ECall (EIdent nm_assert) None (ATuple es)))) s =
+  Ok (rho', sg) s'.
+
+Theorem C17_profile_removal_sound :
+  forall (d : dialect) (rho : env) (va : list value) (n : nat) (sc : list name) 
+  (f : name) (es : list expr) (s : store) (rho' : env) (sg : signal) (s' : store),
+  in_scope nm_debug sc = false ->
+  f = nm_profilebegin \/ f = nm_profileend ->
+  noop_callee d rho va (EField (EIdent nm_debug) f) es s \/
+  identity_callee d rho va (EField (EIdent nm_debug) f) es s ->
+  Forall (kept_or_quiet d rho va) es ->
+  Forall (fun e : expr => is_call (inner_expr e) = true) (filter hse es) ->
+  exec_stmt d n rho va (SCall (ECall (EField (EIdent nm_debug) f) None (ATuple es))) s =
+  Ok (rho', sg) s' ->
+  exists m : nat,
+  forall j : nat,
+  (m <= j)%nat ->
+  exec_stmt d j rho va
+  (rc_stmt profile_matcher true sc (SCall (ECall (EField (EIdent nm_debug) f) None (ATuple es)))) s =
+  Ok (rho', sg) s'.
+Proof. exact profile_removal_sound. Qed.
+Print Assumptions C17_profile_removal_sound.
+Check C17_profile_removal_sound :
+  forall (d : dialect) (rho : env) (va : list value) (n : nat) (sc : list name) 
+  (f : name) (es : list expr) (s : store) (rho' : env) (sg : signal) (s' : store),
+  in_scope nm_debug sc = false ->
+  f = nm_profilebegin \/ f = nm_profileend ->
+  noop_callee d rho va (EField (EIdent nm_debug) f) es s \/
+  identity_callee d rho va (EField (EIdent nm_debug) f) es s ->
+  Forall (kept_or_quiet d rho va) es ->
+  Forall (fun e : expr => is_call (inner_expr e) = true) (filter hse es) ->
+  exec_stmt d n rho va (SCall (ECall (EField (EIdent nm_debug) f) None (ATuple es))) s =
+  Ok (rho', sg) s' ->
+  exists m : nat,
+  forall j : nat,
+  (m <= j)%nat ->
+  exec_stmt d j rho va
+  (rc_stmt profile_matcher true sc (SCall (ECall (EField (EIdent nm_debug) f) None (ATuple es)))) s =
+  Ok (rho', sg) s'.
+
+(** The hypotheses on the callee are satisfiable by real closures ([function() end], [function(...) return ... end]). *)
+Theorem C17_noop_callee_example :
+  noop_callee L51 rho_noop [] (EIdent (of_string "f")) es3 st_noop.
+Proof. exact noop_callee_example. Qed.
+Print Assumptions C17_noop_callee_example.
+Check C17_noop_callee_example :
+  noop_callee L51 rho_noop [] (EIdent (of_string "f")) es3 st_noop.
+
+Theorem C17_identity_callee_example :
+  identity_callee L51 rho_noop [] (EIdent (of_string "f")) es3 st_ident.
+Proof. exact identity_callee_example. Qed.
+Print Assumptions C17_identity_callee_example.
+Check C17_identity_callee_example :
+  identity_callee L51 rho_noop [] (EIdent (of_string "f")) es3 st_ident.
+
+(** A kept argument that is not a call becomes [local _ = e]: evaluated once; the store differs from the reference ONLY by one fresh cell, the environment by a binding of [_] ... *)
+Theorem C17_local_underscore_sound :
+  forall (d : dialect) (rho : env) (va : list value) (k : nat) (e : expr) (s : store) 
+  (vs : list value) (s1 : store),
+  eval d k rho va e s = Ok vs s1 ->
+  is_call (inner_expr e) = false ->
+  exists (k' : nat) (vs' : list value),
+  eval d k' rho va (inner_expr e) s = Ok vs' s1 /\
+  first vs' = first vs /\
+  (forall j : nat,
+  (k' + 2 <= j)%nat ->
+  exec_stmt d j rho va (expressions_as_statement [e]) s =
+  Ok ((nm_underscore, N.of_nat (Datatypes.length (cells s1))) :: rho, SigNone)
+  {|
+  cells := cells s1 ++ [first vs'];
+  tables := tables s1;
+  closures := closures s1;
+  trace := trace s1;
+  oracle := oracle s1;
+  fresh := fresh s1
+  |}).
+Proof. exact local_underscore_sound. Qed.
+Print Assumptions C17_local_underscore_sound.
+Check C17_local_underscore_sound :
+  forall (d : dialect) (rho : env) (va : list value) (k : nat) (e : expr) (s : store) 
+  (vs : list value) (s1 : store),
+  eval d k rho va e s = Ok vs s1 ->
+  is_call (inner_expr e) = false ->
+  exists (k' : nat) (vs' : list value),
+  eval d k' rho va (inner_expr e) s = Ok vs' s1 /\
+  first vs' = first vs /\
+  (forall j : nat,
+  (k' + 2 <= j)%nat ->
+  exec_stmt d j rho va (expressions_as_statement [e]) s =
+  Ok ((nm_underscore, N.of_nat (Datatypes.length (cells s1))) :: rho, SigNone)
+  {|
+  cells := cells s1 ++ [first vs'];
+  tables := tables s1;
+  closures := closures s1;
+  trace := trace s1;
+  oracle := oracle s1;
+  fresh := fresh s1
+  |}).
+
+(** ... which can shadow a user variable (recorded finding, key expressions_as_statement:local-underscore-shadows-user-variable). *)
+Theorem C17_local_underscore_shadows_rule_refuted :
+  exists (b : block) (tr1 : list event) (v1 : rvalue) (tr2 : list event) (v2 : rvalue),
+  run_chunk L51 30 [] b = OutOk tr1 [v1] /\
+  run_chunk L51 30 [] (rule_remove_debug_profiling true b) = OutOk tr2 [v2] /\
+  v1 = RNum (to_bits (of_Z 5)) /\ v2 = RBool true.
+Proof. exact local_underscore_shadows_rule_refuted. Qed.
+Print Assumptions C17_local_underscore_shadows_rule_refuted.
+Check C17_local_underscore_shadows_rule_refuted :
+  exists (b : block) (tr1 : list event) (v1 : rvalue) (tr2 : list event) (v2 : rvalue),
+  run_chunk L51 30 [] b = OutOk tr1 [v1] /\
+  run_chunk L51 30 [] (rule_remove_debug_profiling true b) = OutOk tr2 [v2] /\
+  v1 = RNum (to_bits (of_Z 5)) /\ v2 = RBool true.
+
+(** Recorded finding (key remove_call:directly-nested-removed-call-survives): the node a hook leaves is not processed again. *)
+Theorem C17_assert_nested_refuted :
+  rule_remove_assertions true nested_assert = Block [SCall (call_assert [EFalse])] None /\
+  run_chunk L51 40 [] (with_identity_assert nested_assert) = OutOk [] [] /\
+  run_chunk L51 40 [] (rule_remove_assertions true nested_assert) = OutErr [].
+Proof. exact assert_nested_refuted. Qed.
+Print Assumptions C17_assert_nested_refuted.
+Check C17_assert_nested_refuted :
+  rule_remove_assertions true nested_assert = Block [SCall (call_assert [EFalse])] None /\
+  run_chunk L51 40 [] (with_identity_assert nested_assert) = OutOk [] [] /\
+  run_chunk L51 40 [] (rule_remove_assertions true nested_assert) = OutErr [].
+
+Theorem C17_assert_nested_value_refuted :
+  run_chunk L51 40 [] (with_identity_assert nested_assert_value) = OutOk [] [RBool false] /\
+  run_chunk L51 40 [] (rule_remove_assertions true nested_assert_value) = OutErr [].
+Proof. exact assert_nested_value_refuted. Qed.
+Print Assumptions C17_assert_nested_value_refuted.
+Check C17_assert_nested_value_refuted :
+  run_chunk L51 40 [] (with_identity_assert nested_assert_value) = OutOk [] [RBool false] /\
+  run_chunk L51 40 [] (rule_remove_assertions true nested_assert_value) = OutErr [].
+
+(** INJECTION. The literal the rule writes for a scalar JSON value evaluates to that value, in any environment and store, without effect (integers below 2^53: no axiom; all integers: Flocq's rounding theorem). *)
+Theorem C17_inject_scalar_expr_sound_exact :
+  forall (d : dialect) (j : json) (v : value) (e : expr) (rho : env) (va : list value) (s : store),
+  ints_exact (json_data j) ->
+  scalar_value j = Some v ->
+  value_expr j = Some e -> forall k : nat, (5 <= k)%nat -> eval d k rho va e s = Ok [v] s.
+Proof. exact inject_scalar_expr_sound_exact. Qed.
+Print Assumptions C17_inject_scalar_expr_sound_exact.
+Check C17_inject_scalar_expr_sound_exact :
+  forall (d : dialect) (j : json) (v : value) (e : expr) (rho : env) (va : list value) (s : store),
+  ints_exact (json_data j) ->
+  scalar_value j = Some v ->
+  value_expr j = Some e -> forall k : nat, (5 <= k)%nat -> eval d k rho va e s = Ok [v] s.
+
+Theorem C17_inject_scalar_expr_sound :
+  forall (d : dialect) (j : json) (v : value) (e : expr) (rho : env) (va : list value) (s : store),
+  scalar_value j = Some v ->
+  value_expr j = Some e -> forall k : nat, (5 <= k)%nat -> eval d k rho va e s = Ok [v] s.
+Proof. exact inject_scalar_expr_sound. Qed.
+Print Assumptions C17_inject_scalar_expr_sound.
+Check C17_inject_scalar_expr_sound :
+  forall (d : dialect) (j : json) (v : value) (e : expr) (rho : env) (va : list value) (s : store),
+  scalar_value j = Some v ->
+  value_expr j = Some e -> forall k : nat, (5 <= k)%nat -> eval d k rho va e s = Ok [v] s.
+
+(** Reading the unshadowed global [x] that holds [v] ([reads]: no metamethod runs) and evaluating what the rule puts there give the same value and leave the store alone; likewise for [_G.x], [_G["x"]] when [_G] is the globals table, and in prefix position (parenthesised literal). *)
+Theorem C17_inject_ident_sound_exact :
+  forall (d : dialect) (j : json) (v : value) (e : expr) (x : name) (sc : list name) 
+  (rho : env) (va : list value) (s : store),
+  ints_exact (json_data j) ->
+  scalar_value j = Some v ->
+  value_expr j = Some e ->
+  in_scope x sc = false ->
+  reads rho x s v ->
+  forall k : nat,
+  (5 <= k)%nat ->
+  eval d k rho va (EIdent x) s = Ok [v] s /\
+  eval d k rho va (inject_expr x e sc (EIdent x)) s = Ok [v] s.
+Proof. exact inject_ident_sound_exact. Qed.
+Print Assumptions C17_inject_ident_sound_exact.
+Check C17_inject_ident_sound_exact :
+  forall (d : dialect) (j : json) (v : value) (e : expr) (x : name) (sc : list name) 
+  (rho : env) (va : list value) (s : store),
+  ints_exact (json_data j) ->
+  scalar_value j = Some v ->
+  value_expr j = Some e ->
+  in_scope x sc = false ->
+  reads rho x s v ->
+  forall k : nat,
+  (5 <= k)%nat ->
+  eval d k rho va (EIdent x) s = Ok [v] s /\
+  eval d k rho va (inject_expr x e sc (EIdent x)) s = Ok [v] s.
+
+Theorem C17_inject_field_sound_exact :
+  forall (d : dialect) (j : json) (v : value) (e : expr) (x : name) (sc : list name) 
+  (rho : env) (va : list value) (s : store),
+  ints_exact (json_data j) ->
+  scalar_value j = Some v ->
+  value_expr j = Some e ->
+  in_scope nm_G sc = false ->
+  G_is_globals rho s ->
+  global_holds x s v ->
+  forall k : nat,
+  (5 <= k)%nat ->
+  eval d k rho va (EField (EIdent nm_G) x) s = Ok [v] s /\
+  eval d k rho va (inject_expr x e sc (EField (EIdent nm_G) x)) s = Ok [v] s.
+Proof. exact inject_field_sound_exact. Qed.
+Print Assumptions C17_inject_field_sound_exact.
+Check C17_inject_field_sound_exact :
+  forall (d : dialect) (j : json) (v : value) (e : expr) (x : name) (sc : list name) 
+  (rho : env) (va : list value) (s : store),
+  ints_exact (json_data j) ->
+  scalar_value j = Some v ->
+  value_expr j = Some e ->
+  in_scope nm_G sc = false ->
+  G_is_globals rho s ->
+  global_holds x s v ->
+  forall k : nat,
+  (5 <= k)%nat ->
+  eval d k rho va (EField (EIdent nm_G) x) s = Ok [v] s /\
+  eval d k rho va (inject_expr x e sc (EField (EIdent nm_G) x)) s = Ok [v] s.
+
+Theorem C17_inject_index_sound_exact :
+  forall (d : dialect) (j : json) (v : value) (e : expr) (x : name) (sc : list name) 
+  (rho : env) (va : list value) (s : store),
+  ints_exact (json_data j) ->
+  scalar_value j = Some v ->
+  value_expr j = Some e ->
+  in_scope nm_G sc = false ->
+  G_is_globals rho s ->
+  global_holds x s v ->
+  forall k : nat,
+  (5 <= k)%nat ->
+  eval d k rho va (EIndex (EIdent nm_G) (EString x)) s = Ok [v] s /\
+  eval d k rho va (inject_expr x e sc (EIndex (EIdent nm_G) (EString x))) s = Ok [v] s.
+Proof. exact inject_index_sound_exact. Qed.
+Print Assumptions C17_inject_index_sound_exact.
+Check C17_inject_index_sound_exact :
+  forall (d : dialect) (j : json) (v : value) (e : expr) (x : name) (sc : list name) 
+  (rho : env) (va : list value) (s : store),
+  ints_exact (json_data j) ->
+  scalar_value j = Some v ->
+  value_expr j = Some e ->
+  in_scope nm_G sc = false ->
+  G_is_globals rho s ->
+  global_holds x s v ->
+  forall k : nat,
+  (5 <= k)%nat ->
+  eval d k rho va (EIndex (EIdent nm_G) (EString x)) s = Ok [v] s /\
+  eval d k rho va (inject_expr x e sc (EIndex (EIdent nm_G) (EString x))) s = Ok [v] s.
+
+Theorem C17_inject_prefix_sound_exact :
+  forall (d : dialect) (j : json) (v : value) (e : expr) (x : name) (sc : list name) 
+  (rho : env) (va : list value) (s : store),
+  ints_exact (json_data j) ->
+  scalar_value j = Some v ->
+  value_expr j = Some e ->
+  in_scope x sc = false ->
+  reads rho x s v ->
+  forall k : nat,
+  (7 <= k)%nat ->
+  inject_prefix x e sc (EIdent x) = EParen e /\
+  eval d k rho va (EIdent x) s = Ok [v] s /\ eval d k rho va (EParen e) s = Ok [v] s.
+Proof. exact inject_prefix_sound_exact. Qed.
+Print Assumptions C17_inject_prefix_sound_exact.
+Check C17_inject_prefix_sound_exact :
+  forall (d : dialect) (j : json) (v : value) (e : expr) (x : name) (sc : list name) 
+  (rho : env) (va : list value) (s : store),
+  ints_exact (json_data j) ->
+  scalar_value j = Some v ->
+  value_expr j = Some e ->
+  in_scope x sc = false ->
+  reads rho x s v ->
+  forall k : nat,
+  (7 <= k)%nat ->
+  inject_prefix x e sc (EIdent x) = EParen e /\
+  eval d k rho va (EIdent x) s = Ok [v] s /\ eval d k rho va (EParen e) s = Ok [v] s.
+
+Theorem C17_inject_ident_sound :
+  forall (d : dialect) (j : json) (v : value) (e : expr) (x : name) (sc : list name) 
+  (rho : env) (va : list value) (s : store),
+  scalar_value j = Some v ->
+  value_expr j = Some e ->
+  in_scope x sc = false ->
+  reads rho x s v ->
+  forall k : nat,
+  (5 <= k)%nat ->
+  eval d k rho va (EIdent x) s = Ok [v] s /\
+  eval d k rho va (inject_expr x e sc (EIdent x)) s = Ok [v] s.
+Proof. exact inject_ident_sound. Qed.
+Print Assumptions C17_inject_ident_sound.
+Check C17_inject_ident_sound :
+  forall (d : dialect) (j : json) (v : value) (e : expr) (x : name) (sc : list name) 
+  (rho : env) (va : list value) (s : store),
+  scalar_value j = Some v ->
+  value_expr j = Some e ->
+  in_scope x sc = false ->
+  reads rho x s v ->
+  forall k : nat,
+  (5 <= k)%nat ->
+  eval d k rho va (EIdent x) s = Ok [v] s /\
+  eval d k rho va (inject_expr x e sc (EIdent x)) s = Ok [v] s.
+
+(** Arrays and objects: the expression is the serializer's (C14), and evaluates to a FRESH table with the configured content ... *)
+Theorem C17_inject_table_sound :
+  forall (j : json) (e : expr),
+  value_expr j = Some e -> is_table_json j -> Serializer.to_expression (json_data j) = Some e.
+Proof. exact inject_table_sound. Qed.
+Print Assumptions C17_inject_table_sound.
+Check C17_inject_table_sound :
+  forall (j : json) (e : expr),
+  value_expr j = Some e -> is_table_json j -> Serializer.to_expression (json_data j) = Some e.
+
+Theorem C17_inject_table_value_sound_exact :
+  forall (d : dialect) (j : json) (e : expr),
+  ints_exact (json_data j) ->
+  value_expr j = Some e ->
+  is_table_json j ->
+  wf_keys (json_data j) ->
+  seq_len_ok (json_data j) ->
+  forall (k : nat) (rho : env) (va : list value) (s : store),
+  (size (json_data j) <= k)%nat ->
+  exists (a : N) (s' : store),
+  eval d k rho va e s = Ok [VTable a] s' /\
+  (Datatypes.length (tables s) <= N.to_nat a)%nat /\
+  (forall (b : nat) (t : table), nth_N (tables s) b = Some t -> nth_N (tables s') b = Some t) /\
+  value_denotes_from (Datatypes.length (tables s)) s' (VTable a) (json_data j).
+Proof. exact inject_table_value_sound_exact. Qed.
+Print Assumptions C17_inject_table_value_sound_exact.
+Check C17_inject_table_value_sound_exact :
+  forall (d : dialect) (j : json) (e : expr),
+  ints_exact (json_data j) ->
+  value_expr j = Some e ->
+  is_table_json j ->
+  wf_keys (json_data j) ->
+  seq_len_ok (json_data j) ->
+  forall (k : nat) (rho : env) (va : list value) (s : store),
+  (size (json_data j) <= k)%nat ->
+  exists (a : N) (s' : store),
+  eval d k rho va e s = Ok [VTable a] s' /\
+  (Datatypes.length (tables s) <= N.to_nat a)%nat /\
+  (forall (b : nat) (t : table), nth_N (tables s) b = Some t -> nth_N (tables s') b = Some t) /\
+  value_denotes_from (Datatypes.length (tables s)) s' (VTable a) (json_data j).
+
+(** ... fresh at every occurrence: a program that compares [X == X] can tell the preset global from the literals. *)
+Theorem C17_inject_table_identity_refuted :
+  exists (j : json) (e : expr) (s0 s1 s2 : store),
+  value_expr j = Some e /\
+  is_table_json j /\
+  reads [] nm_X s0 (VTable 7) /\
+  value_denotes s0 (VTable 7) (json_data j) /\
+  eval L51 8 [] [] (EBinary BEq (EIdent nm_X) (EIdent nm_X)) s0 = Ok [VBool true] s1 /\
+  eval L51 8 [] []
+  (EBinary BEq (inject_expr nm_X e [] (EIdent nm_X)) (inject_expr nm_X e [] (EIdent nm_X))) s0 =
+  Ok [VBool false] s2.
+Proof. exact inject_table_identity_refuted. Qed.
+Print Assumptions C17_inject_table_identity_refuted.
+Check C17_inject_table_identity_refuted :
+  exists (j : json) (e : expr) (s0 s1 s2 : store),
+  value_expr j = Some e /\
+  is_table_json j /\
+  reads [] nm_X s0 (VTable 7) /\
+  value_denotes s0 (VTable 7) (json_data j) /\
+  eval L51 8 [] [] (EBinary BEq (EIdent nm_X) (EIdent nm_X)) s0 = Ok [VBool true] s1 /\
+  eval L51 8 [] []
+  (EBinary BEq (inject_expr nm_X e [] (EIdent nm_X)) (inject_expr nm_X e [] (EIdent nm_X))) s0 =
+  Ok [VBool false] s2.
